@@ -313,6 +313,15 @@ impl Lowerer<'_, '_> {
             }
             mir::Value::Move(var) => self.var(var).into(),
             mir::Value::Clone(place) => {
+                if self.is_zero_sized_with_clone_drop(ty) {
+                    // Zero-sized values have no storage, but cloning them can
+                    // still have side effects (e.g. a reference count).
+                    let ptr = self.zero_sized_place(ty);
+                    if let Some(clone_fn) = self.get_runtime_clone(ty) {
+                        self.emit_clone(ptr.clone(), ptr, clone_fn);
+                    }
+                    return;
+                }
                 let from = self.location(place, ty);
                 if let (Some(to), Some(from)) = (to, from) {
                     self.call_clone_of(to, from, ty);
@@ -758,6 +767,14 @@ impl Lowerer<'_, '_> {
     }
 
     fn drop(&mut self, val: mir::Place, ty: TyRef) {
+        if self.is_zero_sized_with_clone_drop(ty) {
+            // Zero-sized values have no storage, but dropping them can still
+            // have side effects (e.g. a reference count).
+            let ptr = self.zero_sized_place(ty);
+            self.call_drop_of(ptr, ty);
+            return;
+        }
+
         let Some(var) = self.location(val, ty) else {
             return;
         };
@@ -1157,6 +1174,24 @@ impl Lowerer<'_, '_> {
 
     fn layout_of(&self, ty: TyRef) -> Option<Layout> {
         self.ctx.type_info.ty_pool.layout_of(ty, self.ctx.runtime)
+    }
+
+    /// Whether this is a zero-sized registered type with clone and drop functions
+    fn is_zero_sized_with_clone_drop(&mut self, ty: TyRef) -> bool {
+        if !self.layout_of(ty).is_some_and(|l| l.size() == 0) {
+            return false;
+        }
+        matches!(self.ctx.type_info.ty_pool.get(ty), Ty::Runtime(_))
+            && self.needs_drop(ty)
+    }
+
+    /// A valid, aligned place for a zero-sized value
+    ///
+    /// This is the address of an empty stack slot, so that it is a valid
+    /// pointer for both code generation and the IR evaluator.
+    fn zero_sized_place(&mut self, ty: TyRef) -> Operand {
+        let layout = self.layout_of(ty).unwrap();
+        self.new_stack_slot(layout).into()
     }
 
     fn is_reference_type(&mut self, ty: TyRef) -> Option<bool> {
